@@ -151,5 +151,5 @@ MUTANTS = [
     dict(name='nextElement: record loop not bounded by the line', file=RD, find=r'\(record_parens != 0 && end < line\.length\(\)\)', repl='record_parens != 0', expect=r'csv\.nextElement', props=['C18']),
     dict(name='reader: keeps both quotes of a doubled quote', file=RD, find=r"(// two double-quote => one double-quote\s*element\.push_back\('\"'\);)", repl=r"\1 element.push_back('\"');", expect=r'csv\.roundtrip\.rfc4180', props=['C17']),
     dict(name='reader: start not advanced past delimiter', file=RD, find=r'start = pos \+ delimiter\.size\(\);', repl='start = pos;', expect=r'csv\.roundtrip\.rfc4180', props=['C17']),
-    dict(name='writer: quote not doubled', file=WR, find=r"(if \(ch == '\"'\) \{.*?)destination << '\"';(\s*\}\s*destination << ch;)", repl=r'\1\2', expect=r'csv\.roundtrip\.rfc4180', props=['C17']),
+    dict(name='writer: quote not doubled', file=WR, find=r"(if \(ch == '\"'\) \{.*?)destination << '\"';(\s*\} else if)", repl=r'\1\2', expect=r'csv\.roundtrip\.(rfc4180|nested)', props=['C17']),
 ]
